@@ -48,4 +48,10 @@ def known_instances(prop):
         d = json.load(open(path))
     except OSError:
         return {}
-    return {(i["font"], i["req"], i["kind"]): i["class"] for i in d["instances"]}
+    # instances are listed with /repo/... font paths; a run against another checkout (RB_REPO) sees the same
+    # corpus under its own root
+    import common as C
+
+    def font(pth):
+        return C.REPO + pth[len("/repo"):] if pth.startswith("/repo/") and C.REPO != "/repo" else pth
+    return {(font(i["font"]), i["req"], i["kind"]): i["class"] for i in d["instances"]}
